@@ -2,7 +2,7 @@
 from . import ingest as ig
 
 PROP = 'C01'
-QUICK = (48, 120, 50.0)
+QUICK = (144, 120, 60.0)
 THOROUGH = (1200, 200, 840.0)
 boot, execute = ig.boot, ig.execute
 SHRINK_LISTS, SHRINK_DICTS = ig.SHRINK_LISTS, ig.SHRINK_DICTS
